@@ -66,6 +66,33 @@ theorem kept_spec (L : Loader) (P : List String) (n : NodeJ) (w : String) (tid :
             · cases hr
       · cases hr
 
+/-- **What the full ontology carries in addition**: for a node kept by the FULL loader, the term's definition (text and
+its cross-references), comment (the document's comments joined by ", "), synonyms (each parsed into name, scope, type
+and cross-references - `parseSynonym`, incl. the ORCID form) and cross-references are exactly those stated in the
+node's `meta`; absent parts are `none`, a node without `meta` has none of them. -/
+theorem full_content_spec (P : List String) (n : NodeJ) (w : String) (tid : String × String) (t : Term)
+    (h : keptOf .full P n = some ((w, tid), t)) :
+    match n.mta with
+    | none => t.definition = none ∧ t.comment = none ∧ t.synonyms = none ∧ t.xrefs = none
+    | some mj =>
+      t.definition = mj.definition.bind (fun d => d.val.map (fun v => (v, d.xrefs))) ∧
+      t.comment = (if mj.comments.isEmpty then none else some (", ".intercalate mj.comments)) ∧
+      t.synonyms = (if mj.synonyms.isEmpty then none else some (mj.synonyms.map parseSynonym)) ∧
+      (if mj.xrefs.isEmpty then t.xrefs = none
+       else ∃ l, mapM' xrefTid mj.xrefs = some l ∧ t.xrefs = some l) := by
+  unfold keptOf at h
+  cases hr : retained P n with
+  | none => simp [hr] at h
+  | some p =>
+    obtain ⟨w', tid'⟩ := p
+    simp only [hr] at h
+    cases hm : mkTerm .full tid' n with
+    | error e => simp [hm] at h
+    | ok t' =>
+      simp only [hm, Option.some.injEq, Prod.mk.injEq] at h
+      obtain ⟨_, rfl⟩ := h
+      exact mkTerm_full_content tid' n t' hm
+
 /-- a node that is not a CLASS node, has no OBO PURL, or a foreign prefix contributes nothing — whatever else it carries -/
 theorem ignored_nodes (L : Loader) (P : List String) (n : NodeJ)
     (h : n.type ≠ some "CLASS" ∨ purlCurie n.id = none ∨
